@@ -453,6 +453,17 @@ func (a *w3Analysis) retention(files []*w3File) {
 	rng := rand.New(rand.NewSource(b.CrashSeed ^ 0x7e7e))
 	root := a.h.dir
 	format := a.h.recordPathFormat(root)
+	// name layouts whose lexical order is not the order of the start instants (day first: the
+	// planted ages cross a month boundary; hour first): nothing in the property ties the order of
+	// a directory listing to time. The segments recorded in this run keep the default layout and
+	// are then files of another layout, which must stay. Own generator: the draws below are unchanged.
+	layout := rand.New(rand.NewSource(b.CrashSeed ^ 0x5151)).Intn(4)
+	switch layout {
+	case 2:
+		format = filepath.Join(root, "%path", "%d-%m-%Y_%H-%M-%S-%f")
+	case 3:
+		format = filepath.Join(root, "%path", "%H-%M-%S-%f_%Y-%m-%d")
+	}
 	now0 := time.Now()
 	dur := func() time.Duration {
 		return []time.Duration{10 * time.Second, time.Minute, time.Hour, 24 * time.Hour}[rng.Intn(4)]
@@ -503,6 +514,10 @@ func (a *w3Analysis) retention(files []*w3File) {
 		st := now0
 		if f.init != nil && f.init.mtxi != nil {
 			st = time.Unix(0, f.init.mtxi.ntp)
+		}
+		if layout >= 2 {
+			planted = append(planted, w3Planted{path: filepath.Join(root, "cam", f.name), kind: "file named after another recordPath layout"})
+			continue
 		}
 		planted = append(planted, w3Planted{path: filepath.Join(root, "cam", f.name), segment: true, owner: "cam", start: st.Truncate(time.Microsecond), kind: "recorded"})
 	}
